@@ -26,6 +26,8 @@ CONSTANTS MaxBlocks,      \* 1..3
           CfiLayouts,     \* subset of {"none","proc_all","proc_each","proc_rs"}
           Isa,            \* "x64" | "ia32" | "arm64": instruction sizes of the rendered module
           WithScopes,     \* BOOLEAN: generate register_insert(AllBlocksScope(ENTRY), ..) requests
+          Leads,          \* set of numbers of uncovered filler bytes in front of the first block
+          DropFnTables,   \* BOOLEAN subset: function-less modules may lack the three function tables
           ExtraData,      \* BOOLEAN subset: add an untouched .data section whose word refers to the target symbol
           Retargets,      \* BOOLEAN subset: also retarget_symbol_uses(target symbol -> another block's symbol)
           AlignOpts,      \* subset of {0, 4, 16}: alignment aux data on the first block (0 = none)
@@ -99,7 +101,7 @@ MergeCfi(cs) ==
          <<sorted[k], FlattenSeq([i \in 1..Len(SelectSeq(cs, LAMBDA c : c[1] = sorted[k])) |->
                                      SelectSeq(cs, LAMBDA c : c[1] = sorted[k])[i][2]])>>]
 
-MkBlock(i, nb, tpl, tgtIdx, layout, endSym, annMode, annAt, cl, noSym, al) ==
+MkBlock(i, nb, tpl, tgtIdx, layout, endSym, annMode, annAt, cl, noSym, al, ld) ==
   LET units == TemplateUnits(tpl, i, BName(tgtIdx))
       f == IF IsData(tpl) THEN "" ELSE FnOf(layout, i, nb)
   IN  [kind |-> IF IsData(tpl) THEN "data" ELSE "code",
@@ -115,11 +117,13 @@ MkBlock(i, nb, tpl, tgtIdx, layout, endSym, annMode, annAt, cl, noSym, al) ==
                \o (IF annMode # "none" /\ i = nb /\ annAt # <<nb, 0>>
                    THEN << <<0, "comments", annMode, "c2">> >> ELSE <<>>),
        cfi |-> MergeCfi(CfiOf(cl, i, nb, units, IsData(tpl))),
-       align |-> IF i = 1 THEN al ELSE 0]
+       align |-> IF i = 1 THEN al ELSE 0,
+       \* bytes in front of the first block that no block covers
+       lead |-> IF i = 1 THEN ld ELSE 0]
 
 ShapeParams ==
   {p \in [nb : 1..MaxBlocks, tpl : [1..MaxBlocks -> Templates], tgt : 1..MaxBlocks,
-          layout : FnLayouts, es : SUBSET (1..MaxBlocks), ns : SUBSET (1..MaxBlocks), am : AnnModes, cl : CfiLayouts, al : AlignOpts, xd : ExtraData,
+          layout : FnLayouts, es : SUBSET (1..MaxBlocks), ns : SUBSET (1..MaxBlocks), am : AnnModes, cl : CfiLayouts, al : AlignOpts, xd : ExtraData, dft : DropFnTables, ld : Leads,
           annAt : (1..MaxBlocks) \X (0..3)] :
      /\ \A i \in (p.nb + 1)..MaxBlocks : p.tpl[i] = CHOOSE x \in Templates : TRUE
      /\ p.tgt <= p.nb
@@ -128,6 +132,7 @@ ShapeParams ==
      /\ (p.es # {} => TRUE \in EndSyms) /\ Cardinality(p.es) <= 1
      /\ p.ns \subseteq 1..p.nb /\ Cardinality(p.ns) <= 1 /\ p.tgt \notin p.ns
      /\ (p.ns # {} => TRUE \in NoSyms)
+     /\ (p.dft => p.layout = "none")
      /\ (p.layout # "none" => 1 \notin p.ns /\ 2 \notin p.ns)
      /\ (p.am = "none" => p.annAt = <<1, 0>>)
      /\ (p.am # "none" => p.annAt[1] <= p.nb)
@@ -141,12 +146,12 @@ DataSection(tgtIdx) ==
   [name |-> ".data",
    blocks |-> <<[kind |-> "data", units |-> << <<"d", 4, 90>>, <<"dq", BName(tgtIdx), 0>> >>,
                  syms |-> <<"dd">>, esyms |-> <<>>, fn |-> "", entry |-> FALSE,
-                 ann |-> << <<1, "comments", "bi", "dc">> >>, cfi |-> <<>>, align |-> 0]>>]
+                 ann |-> << <<1, "comments", "bi", "dc">> >>, cfi |-> <<>>, align |-> 0, lead |-> 0]>>]
 MkShape(p) ==
-  [isa |-> Isa, fmt |-> "elf",
+  [isa |-> Isa, fmt |-> "elf", drop_fn_tables |-> p.dft,
    sections |-> <<[name |-> ".text",
                    blocks |-> [i \in 1..p.nb |->
-                       MkBlock(i, p.nb, p.tpl[i], p.tgt, p.layout, i \in p.es, p.am, p.annAt, p.cl, i \in p.ns, p.al)]]>>
+                       MkBlock(i, p.nb, p.tpl[i], p.tgt, p.layout, i \in p.es, p.am, p.annAt, p.cl, i \in p.ns, p.al, p.ld)]]>>
                 \o (IF p.xd THEN <<DataSection(p.tgt)>> ELSE <<>>)]
 
 (***************************************************************************)
@@ -196,7 +201,8 @@ AbsDir(d) ==
 AbsState(sh) ==
   LET bs == sh.sections[1].blocks
       sizes == [i \in 1..Len(bs) |-> UnitOffsets(bs[i].units)[Len(bs[i].units)]]
-      pos == LET f[i \in 0..Len(bs)] == IF i = 0 THEN 0 ELSE f[i - 1] + sizes[i] IN f
+      lead == bs[1].lead
+      pos == LET f[i \in 0..Len(bs)] == IF i = 0 THEN lead ELSE f[i - 1] + sizes[i] IN f
       blk(i) == [u |-> i, k |-> bs[i].kind, p |-> pos[i - 1], n |-> sizes[i],
                  units |-> ExpandUnits(i, bs[i].units),
                  ss |-> bs[i].syms, es |-> bs[i].esyms,
@@ -220,9 +226,11 @@ AbsState(sh) ==
                                         fn |-> <<>>, ent |-> <<>>, sx |-> SxOf(db.units), ann |-> <<>>,
                                         cfi |-> <<>>, al |-> 0, inside |-> TRUE]>>,
                           iann |-> <<[p |-> 1, t |-> "comments", v |-> "dc", ok |-> TRUE]>>,
-                          sxout |-> <<>>, noaddr |-> 0]>>
+                          sxout |-> <<>>, gaps |-> <<>>, noaddr |-> 0]>>
   IN  [secs |-> <<[name |-> ".text", size |-> pos[Len(bs)], blocks |-> [i \in 1..Len(bs) |-> blk(i)],
-                   iann |-> iann, sxout |-> <<>>, noaddr |-> 0]>> \o dsec,
+                   iann |-> iann, sxout |-> <<>>,
+                   gaps |-> IF lead = 0 THEN <<>> ELSE <<[u |-> 900000, p |-> 0, by |-> [x \in 1..lead |-> 204]]>>,
+                   noaddr |-> 0]>> \o dsec,
        syms |-> <<>>, fns |-> <<>>]
 
 (***************************************************************************)
@@ -249,6 +257,9 @@ AbsPatch0(kind, id) ==
                               sx |-> <<[o |-> 1, d |-> <<"C", "b1", 0>>]>>, sxs |-> <<>>]
        [] kind = "ref"    -> [units |-> <<u(0, 7, "op", "b1")>>, labels |-> <<>>,
                               sx |-> <<[o |-> 3, d |-> <<"C", "b1", 0>>]>>, sxs |-> <<>>]
+       [] kind = "resume" -> [units |-> <<u(0, 7, "op", ".Lr"), u(7, 2, "ijmp", "")>>,
+                              labels |-> <<[nm |-> ".Lr", base |-> ".Lr", o |-> 9]>>,
+                              sx |-> <<[o |-> 3, d |-> <<"C", ".Lr", 0>>]>>, sxs |-> <<>>]
        [] kind = "bytes"  -> [units |-> <<[o |-> 0, n |-> 1, k |-> "data", tg |-> "", tgb |-> "", by |-> <<<<"patch", id, 1>>>>],
                                           [o |-> 1, n |-> 1, k |-> "data", tg |-> "", tgb |-> "", by |-> <<<<"patch", id, 2>>>>]>>,
                               labels |-> <<>>, sx |-> <<>>, sxs |-> <<>>]
